@@ -38,6 +38,7 @@ EXPLANATION = (
     "even, non-zero number of quote characters; the zero-iteration path must be excluded by an explicit empty-string test. "
     "Not decided: token-for-token equivalence, parenthesisation and precedence, wrapping at every line length, idempotence "
     "— behaviour of the printer on values.")
+from engines import call_args
 
 PLACEHOLDER_DEFAULT = re.compile(r"unknown|Reached default|not handled", re.I)
 
@@ -836,6 +837,84 @@ def r6_quotes(prog, res):
                             "quotes balanced within the format" if ok else "format %r prints an unpaired quote" % a["s"])
 
 
+# --------------------------------------------------------------------------- R7
+ASSOCIATIVE = {
+    "OP_AND": "logical AND", "OP_OR": "logical OR", "OP_XOR": "logical XOR", "OP_ANDOR": "supertype ANDOR",
+    "OP_PLUS": "addition / union / string concatenation", "OP_TIMES": "multiplication / intersection",
+    "OP_CONCAT": "complex entity constructor ||",
+}
+
+
+def r7_chain_flattening(prog, res):
+    """A printer that omits the parentheses of an operand whose operator equals the enclosing one prints
+    `a op ( b op c )` as `a op b op c`, which the (left-associative) grammar reads back as `( a op b ) op c`.
+    That is the same expression only for associative operators."""
+    eliders = {}
+    for f in prog.all_functions():
+        if f.component != "exppp" or not f.params:
+            continue
+        pds = {p_["d"] for p_ in f.params}
+        for x in f.walk():
+            if x["k"] != "If":
+                continue
+            cmp_ = [y for y in walk(x["ch"][0]) if y["k"] == "Binary" and y.get("op") in ("!=", "==") and
+                    any(z["k"] == "Member" and z.get("n") == "op_code" for z in walk(y)) and
+                    any(z["k"] == "Ref" and z.get("d") in pds for z in walk(y))]
+            if not cmp_:
+                continue
+            opens = [c for c in walk(x["ch"][1]) if c["k"] == "Call" and (c.get("fn") or "") in ("raw", "wrap") and c.get("ch")
+                     and strip(c["ch"][0]) is not None and strip(c["ch"][0])["k"] == "Str" and "(" in strip(c["ch"][0])["s"]]
+            if opens:
+                pidx = [i for i, p_ in enumerate(f.params)
+                        if any(strip(z) is not None and strip(z)["k"] == "Ref" and strip(z).get("d") == p_["d"] for y in cmp_ for z in y["ch"])]
+                if pidx:
+                    eliders[f.key] = (f, pidx[0])
+    res.info["r7_paren_eliding_printers"] = sorted(f.name for f, _ in eliders.values())
+    res.floor("R7.flattened_chain_is_associative", "printers that omit parentheses inside a chain of the same operator", len(eliders), 1)
+    opv = enum_by_value(prog, "OP_AND")
+    oname = {v: k for k, v in opv.items()}
+    n = 0
+    for f in prog.all_functions():
+        if f.component != "exppp":
+            continue
+        for sw in [x for x in f.walk() if x["k"] == "Switch" and expr_str(strip(x["ch"][0])).endswith("op_code")]:
+            items = flatten_switch(sw)
+            for i, (labs, stmt) in enumerate(items):
+                if not labs:
+                    continue
+                body = []
+                for _, st in items[i:]:
+                    if st is not None:
+                        body.append(st)
+                        if any(y["k"] in ("Break", "Return") for y in walk(st)):
+                            break
+                calls = [c for st in body for c in walk(st) if c["k"] == "Call" and c.get("fk") in eliders]
+                if not calls:
+                    continue
+                for l in labs:
+                    # a constant `enclosing operator` argument other than this operator never matches: no elision
+                    live = []
+                    for c in calls:
+                        a = call_args(c)
+                        pi = eliders[c["fk"]][1]
+                        av = strip(a[pi]) if pi < len(a) else None
+                        if av is not None and "val" in av and av["val"] != l:
+                            continue
+                        live.append(c)
+                    if not live:
+                        continue
+                    calls_l = live
+                    o = oname.get(l, str(l)) if isinstance(l, int) else str(l)
+                    n += 1
+                    ok = o in ASSOCIATIVE
+                    res.add("R7.flattened_chain_is_associative", "R7|%s|%s|%s" % (f.relfile(), f.name, o), f.where(calls_l[0]), ok,
+                            "%s (%s) is associative, so dropping the inner parentheses of a chain keeps the expression" % (o, ASSOCIATIVE.get(o)) if ok else
+                            "%s is printed by %s(), which drops the parentheses of an operand with the same operator: `a op ( b op c )` "
+                            "comes out as `a op b op c` and is read back as `( a op b ) op c`, a different expression for a "
+                            "non-associative operator" % (o, calls_l[0].get("fn")))
+    res.floor("R7.flattened_chain_is_associative", "operators routed to a paren-eliding printer", n, 5)
+
+
 def run(prog, res, tier):
     gr = Grammar(prog, res)
     if not gr.ok:
@@ -849,3 +928,4 @@ def run(prog, res, tier):
     r4_shared(prog, res, gr)
     r5_real(prog, res)
     r6_quotes(prog, res)
+    r7_chain_flattening(prog, res)
